@@ -85,6 +85,12 @@ def gen_tracers(rng, which, fancy=True):
         for t in T.values():
             if rng.random() < 0.5:
                 t.update(z_pivot=float(rng.choice([0.8, 0.2, 0.5])), logM_cut_pr=float(rng.uniform(-1, 1)), logM1_pr=float(rng.uniform(-1, 1)))
+    if fancy == 'sparse':
+        # a term that is switched off is simply left out of the dict (documented defaults: 0 for the bias terms, 1 for ic)
+        for t in T.values():
+            for key, default in (('Acent', 0.0), ('Asat', 0.0), ('Bcent', 0.0), ('Bsat', 0.0), ('Ccent', 0.0), ('Csat', 0.0), ('ic', 1.0)):
+                if t.get(key) == default:
+                    t.pop(key)
     return T
 
 
